@@ -74,9 +74,9 @@ CLAIMED = {
             "PARTIAL machine-checked proof: the ingredients of the Einfeldt/Perthame-Shu positivity argument are proved for the Euler kernels exactly as coded (cone convexity, two-sided wave-speed lemma, admissible HLL intermediate state, HLLE = HLL with the code's own speeds which satisfy the bounds by construction; positive HLL depth for shallow water). Not proved: CFL<=1/2 on cell speeds implies the face wave-speed condition; HLLC; the assembled one-step statement. These are explored by the sweep (strong jumps, ratios 1e3, Mach 3, 40 steps).",
             "Trusted: Lean kernel + standard axioms; transcription of flux kernels (L-flux-*), pipeline (L-rhs1d), integrators (L-int); sampling for the un-proved clauses.",
             "DESIGN.md 4/C10"),
-    'C09': ("Lean 4 theorems (Harten's lemma on ZMod n for any ordered field: TVD and maximum principle; first-order upwind convection on ANY periodic mesh at CFL<=1 via the pipeline model; convexity of TV/range; limiter-ratio bounds) + exact-Q correspondence + TVD sweep",
-            "Machine-checked proof of Harten's TVD lemma and maximum principle on the cyclic index set, of the incremental form of one explicit step of the first-order periodic convection pipeline on an arbitrary mesh (either sign), hence TVD and range preservation for CFL<=1; convexity lemmas and the C05 Shu-Osher forms for the SSP lift; MUSCL with any Sweby-region limiter (all four limiters proved to be in it) on a uniform periodic mesh at CFL<=1/2 is TVD and range-preserving for linear convection (a>0; through the cyclic refinement theorem). Partial: a<0 MUSCL (by reflection, not assembled), Burgers (Roe flux without entropy fix) are explored by the sweep (random, step, sawtooth, integer-tie, stationary-shock data).",
-            "Trusted: Lean kernel + standard axioms; transcription of fvm1d/fluxes/limiters/integrators (layers L-rhs1d, L-flux-conv/burgers, L-lim, L-int, L-dt); sampling for the partial clauses.",
+    'C09': ("Lean 4 theorems (Harten's lemma on ZMod n; upwind, MUSCL with every limiter, first-order Burgers: one step, SSP steps, whole solves) + exact-Q correspondence + TVD sweep",
+            "Machine-checked proof of Harten's TVD lemma and maximum principle on the cyclic index set; one forward-Euler step of the periodic pipeline model is TVD and range preserving for first-order upwind convection (any speed sign, any periodic mesh, CFL<=1), MUSCL with any Sweby-region limiter (all four limiters of the code proved to be in it; any speed sign, uniform mesh, CFL<=1/2) and first-order Burgers with the code's flux (sonic points, ties; CFL<=1); lifted to the explicit/rk2_heun/rk3ssp step models through the Shu-Osher forms of the tables regenerated from the source, and to whole solves of the driver model (any save times, stop criteria, monitors; every returned snapshot). Partial: MUSCL with the Burgers flux and non-uniform MUSCL are explored by the sweep only; global time step assumed.",
+            "Trusted: Lean kernel + standard axioms; transcription of fvm1d/fluxes/limiters/integrators/driver (layers L-rhs1d, L-flux-conv/burgers, L-lim, L-int, L-dt, L-driver); sampling for the partial clauses.",
             "DESIGN.md 4/C09"),
     'C04': ("Lean 4 theorems for the algebraic ingredients of convergence (exact quadratic defect (k-1/3)h^2/2 of the kappa reconstruction with the generated constants, order conditions, Lax-Richtmyer accumulation, consistency and conservation) + measured convergence studies against exact solutions",
             "PARTIAL by nature (convergence is a limit statement): machine-checked proof that the kappa face value is exact for linear data and has defect exactly (k-1/3)h^2/2 on quadratics (third order iff k = 1/3, the value the source's extrapol3 carries), of every temporal order condition (C05), of the Lax-Richtmyer error accumulation for any non-expansive one-step map (with non-expansion of first-order upwind from C09), and of conservation form + flux consistency (C01, C02). Convergence itself - observed orders for every reconstruction, monotone L1 error decrease for random Riemann problems against an independent exact Riemann solver, agreement of the packaged aerokit-based reference solutions - is explored numerically and labelled as such.",
